@@ -386,9 +386,11 @@ def run(F, run, tier):
         except (Missing, sym.Unsupported) as e:
             run.broken("R3.6", name, "exploration", "src/ivp", "cannot explore the step() protocol: %s" % e)
             continue
-        hits = {k: v for k, v in r["problems"].items() if k.startswith("R3.6")}
+        # T3 (roll-back coherence) matters here too: a start-up redone from an incoherent (time, state) yields points that are
+        # not steps of the method from the previously yielded point
+        hits = {k: v for k, v in r["problems"].items() if k.startswith("R3.6") or k.startswith("T3")}
         for key, (what, node, st, labels) in hits.items():
-            run.fail("R3.6", P.name, "%s:%s" % (key.split(":", 1)[1], name), F.loc(P.step, node) if node else F.loc(P.step), what)
+            run.fail("R3.6" if key.startswith("R3.6") else "R3.2-T3", P.name, "%s:%s" % (key.split(":", 1)[1], name), F.loc(P.step, node) if node else F.loc(P.step), what)
         bad = {k: v for k, v in r["problems"].items() if k.startswith("unsupported") or k.startswith("state-limit")}
         for key, (what, node, st, labels) in bad.items():
             run.broken("R3.6", P.name, "%s:%s" % (name, key[:40]), F.loc(P.step), what)
